@@ -63,36 +63,59 @@ SWALLOW_TRIAGE = {
 }
 
 
+def _handlers_in(ctx, m, fn):
+    out = []
+    for t in ast.walk(fn):
+        if not isinstance(t, ast.Try):
+            continue
+        for h in t.handlers:
+            if h.type is None:
+                types = ['builtin:BaseException']
+            elif isinstance(h.type, ast.Tuple):
+                types = [ctx.res.resolve(e, m) for e in h.type.elts]
+            else:
+                types = [ctx.res.resolve(h.type, m)]
+            catches_xl = any(t_ and (is_excel_error_ref(ctx, t_) or t_ in ('builtin:Exception', 'builtin:BaseException'))
+                             for t_ in types)
+            if not catches_xl:
+                continue
+            reraises = any(isinstance(x, ast.Raise) for s in h.body for x in ast.walk(s))
+            returns_err = h.name and any(isinstance(x, ast.Return) and x.value is not None and h.name in names_in(x.value)
+                                         for s in h.body for x in ast.walk(s))
+            if reraises or returns_err:
+                continue
+            out.append((h, types))
+    return out
+
+
 def _swallowing_handlers(ctx):
     """Handlers that catch an ExcelError (or broader) and drop it; keyed by the OUTERMOST enclosing function (class-qualified)
-    and their ordinal inside it, so that renaming a nested helper does not change the key."""
+    and their ordinal inside it. A private module-level helper with exactly one caller counts as part of that caller, so
+    that extracting or renaming a helper does not change the key."""
     out = []
     for m in ctx.repo.modules.values():
         tops = [(q, f) for q, f in m.funcs.items() if isinstance(f._parent, (ast.Module, ast.ClassDef))]
-        for qual, fn in tops:
-            k = 0
-            for t in ast.walk(fn):
-                if not isinstance(t, ast.Try):
-                    continue
-                for h in t.handlers:
-                    types = []
-                    if h.type is None:
-                        types = ['builtin:BaseException']
-                    elif isinstance(h.type, ast.Tuple):
-                        types = [ctx.res.resolve(e, m) for e in h.type.elts]
-                    else:
-                        types = [ctx.res.resolve(h.type, m)]
-                    catches_xl = any(t_ and (is_excel_error_ref(ctx, t_) or t_ in ('builtin:Exception', 'builtin:BaseException'))
-                                     for t_ in types)
-                    if not catches_xl:
-                        continue
-                    reraises = any(isinstance(x, ast.Raise) for s in h.body for x in ast.walk(s))
-                    returns_err = h.name and any(isinstance(x, ast.Return) and x.value is not None and h.name in names_in(x.value)
-                                                 for s in h.body for x in ast.walk(s))
-                    if reraises or returns_err:
-                        continue
-                    out.append((m, qual, fn, h, k, types))
-                    k += 1
+        callers = {}
+        for q, f in tops:
+            for c in ast.walk(f):
+                if isinstance(c, ast.Call) and isinstance(c.func, ast.Name):
+                    callers.setdefault(c.func.id, set()).add(q)
+        folded = {}      # helper qual -> caller qual
+        for q, f in tops:
+            if isinstance(f._parent, ast.Module) and q.startswith('_') and len(callers.get(q, ())) == 1 \
+                    and (m.name, q, 0) not in SWALLOW_TRIAGE:
+                caller = next(iter(callers[q]))
+                if caller != q:
+                    folded[q] = caller
+        per_owner = {}
+        for q, f in tops:
+            owner = folded.get(q, q)
+            for h, types in _handlers_in(ctx, m, f):
+                per_owner.setdefault(owner, []).append((q != owner, flow.pos(h), h, types, f))
+        for owner, lst in per_owner.items():
+            lst.sort(key=lambda x: (x[0], x[1]))
+            for k, (_, _, h, types, f) in enumerate(lst):
+                out.append((m, owner, f, h, k, types))
     return out
 
 
@@ -252,60 +275,122 @@ def rule_4(ctx):
     ctx.floor(55, 'inspector x class lattice')
 
 
+class _Sig(PyModel):
+    def __init__(self, names):
+        self.names = names
+        self.parameters = {n: _Ann(f'annotation of {n}') for n in names}
+        self.return_annotation = _Ann('return annotation')
+
+    def bind(self, *args, **kw):
+        b = _Bound()
+        b.arguments = dict(zip(self.names, args))
+        b.arguments.update(kw)
+        return b
+
+
+class _Ann(PyModel):
+    def __init__(self, label):
+        self.annotation = self
+        self.label = label
+
+
+class _Bound(PyModel):
+    arguments = None
+
+    @property
+    def args(self):
+        return tuple(self.arguments.values())
+
+    @property
+    def kwargs(self):
+        return {}
+
+
 def rule_5(ctx):
+    """Contract of the validate_args wrapper, decided by partially evaluating it on abstract arguments: the leftmost error
+    (an error value or a failed conversion) is the result and the function is not called; otherwise the function is called
+    once with the converted arguments and an ExcelError it raises becomes the result."""
+    from xlsa.guards import ExcRaised
     xm = ctx.mod('xlfunctions.xl')
     va = xm.func('validate_args')
-    inner = [f for q, f in xm.funcs.items() if q.startswith('validate_args.')]
+    inner = [f for q, f in xm.funcs.items() if q.startswith('validate_args.') and isinstance(f._parent, ast.FunctionDef)]
     if len(inner) != 1:
         raise AnchorMissing('validate_args inner wrapper')
     w = inner[0]
-    loops = [n for n in w.body if isinstance(n, ast.For)]
-    if not loops:
-        raise AnchorMissing('validate_args: loop over bound arguments')
-    lp = loops[0]
-    it_txt = ast.unparse(lp.iter)
-    ordered = 'arguments' in it_txt and not any(
-        isinstance(c, ast.Call) and isinstance(c.func, ast.Name) and c.func.id in ('sorted', 'reversed', 'set')
-        for c in ast.walk(lp.iter))
-    ctx.expect(ordered, lp, 'arguments visited in signature order',
-               f'validate_args iterates `{it_txt[:50]}`: not the bound arguments in signature order, so the leftmost '
-               'error is not the one returned')
-    valvar = lp.target.elts[1].id if isinstance(lp.target, ast.Tuple) and len(lp.target.elts) == 2 else None
-    first = lp.body[0] if lp.body else None
-    ok = isinstance(first, ast.If) and isinstance(first.test, ast.Call) and isinstance(first.test.func, ast.Name) \
-        and first.test.func.id == 'isinstance' and isinstance(first.test.args[0], ast.Name) \
-        and first.test.args[0].id == valvar and ctx.res.resolve(first.test.args[1], xm) == XLERR + 'ExcelError' \
-        and len(first.body) == 1 and isinstance(first.body[0], ast.Return) \
-        and isinstance(first.body[0].value, ast.Name) and first.body[0].value.id == valvar
-    ctx.expect(ok, lp, 'error argument returned before any conversion',
-               'the loop over the arguments does not begin with `if isinstance(value, ExcelError): return value`: an '
-               'error passed for a parameter without a cast (class annotation, no annotation) is not propagated')
-    # _validate call of the loop inside a handler returning the error
-    calls = [c for c in ast.walk(lp) if isinstance(c, ast.Call) and isinstance(c.func, ast.Name) and c.func.id == '_validate']
-    for c in calls:
-        ctx.expect(_in_returning_handler(ctx, c, w, xm), c, 'argument conversion errors are returned',
-                   'an ExcelError raised while converting an argument is not returned as the result')
-    # the function call
-    fcalls = [c for c in flow.calls_in(w) if isinstance(c.func, ast.Name) and c.func.id == func_params(va)[0]]
-    ctx.expect(len(fcalls) == 1, w, 'wrapped function called once', f'the wrapped function is called {len(fcalls)} times')
-    for c in fcalls:
-        ctx.expect(_in_returning_handler(ctx, c, w, xm), c, 'ExcelError raised by the function is returned',
-                   'an ExcelError raised by the function body escapes instead of becoming the cell value')
-        ctx.expect(flow.pos(c) > flow.pos(lp), c, 'function called after all arguments were checked',
-                   'the function is called before the arguments were validated')
-    ctx.floor(5, 'wrapper contract obligations')
+    fparam = func_params(va)[0]
+    E = XLERR + 'ExcelError'
 
+    def err(label, cls='DivZeroExcelError'):
+        return Rec(cls=XLERR + cls, value=label, label=label)
 
-def _in_returning_handler(ctx, node, fn, m):
-    p = node._parent
-    while p is not None and p is not fn:
-        if isinstance(p, ast.Try) and any(flow.contains(s, node) for s in p.body):
-            for h in p.handlers:
-                if h.type is not None and ctx.res.resolve(h.type, m) == XLERR + 'ExcelError' and h.name:
-                    if any(isinstance(s, ast.Return) and isinstance(s.value, ast.Name) and s.value.id == h.name for s in h.body):
-                        return True
-        p = p._parent
-    return False
+    def isinst(val, refs):
+        refs = refs if isinstance(refs, tuple) else (refs,)
+        cls = val.f.get('cls') if isinstance(val, Rec) else (val.ref if isinstance(val, Ref) else None)
+        return bool(cls) and any(r and ctx.res.is_subclass(cls, r) for r in refs)
+
+    def run(argvals, func_behaviour='ok'):
+        calls = {'func': [], 'validate': []}
+
+        def validate(ann, val, name):
+            calls['validate'].append((getattr(ann, 'label', ann), val))
+            if val == 'bad':
+                raise ExcRaised(err(f'conversion of {name} failed', 'ValueExcelError'))
+            if isinstance(val, str) and val.startswith('raw'):
+                return 'converted ' + val
+            return val
+
+        class _F(PyModel):
+            def __call__(self, *a, **k):
+                calls['func'].append(a)
+                if func_behaviour == 'raise':
+                    raise ExcRaised(err('raised by the function', 'NumExcelError'))
+                return 'result'
+        names = [f'p{i}' for i in range(len(argvals))]
+        wa = w.args
+        env = {fparam: _F()}
+        if wa.vararg:
+            env[wa.vararg.arg] = tuple(argvals)
+        if wa.kwarg:
+            env[wa.kwarg.arg] = {}
+        it = Interp(ctx.a, xm, env, isinstance_fn=isinst, inline_pkg=True, scope_fn=w,
+                    call_models={'ext:inspect.signature': lambda f: _Sig(names), 'pkg:xlfunctions.xl:_validate': validate})
+        out = it.run(w.body)
+        return out, calls
+    e1, e2 = err('E1'), err('E2', 'NaExcelError')
+    try:
+        out, calls = run(['raw a', e1, e2])
+        ctx.expect(out.end == 'return' and out.value is e1 and not calls['func'], w, 'the leftmost error argument is the result',
+                   f'f(a, E1, E2) yields {getattr(out.value, "f", {}).get("label", out.value)!r} and calls the function {len(calls["func"])} time(s): the '
+                   'leftmost error argument must be returned without calling the function')
+        out, calls = run([e2, 'raw a', e1])
+        ctx.expect(out.end == 'return' and out.value is e2, w, 'an error in the first position wins',
+                   f'f(E2, a, E1) yields {getattr(out.value, "f", {}).get("label", out.value)!r}')
+        out, calls = run(['bad', e1])
+        ctx.expect(out.end == 'return' and isinstance(out.value, Rec) and out.value.f.get('label') == 'conversion of p0 failed' and not calls['func'],
+                   w, 'a failed conversion left of an error argument is the result',
+                   f'f(<unconvertible>, E1) yields {getattr(out.value, "f", {}).get("label", out.value)!r}: arguments are not processed left to right')
+        out, calls = run([e1, 'bad'])
+        ctx.expect(out.end == 'return' and out.value is e1, w, 'an error argument left of a failed conversion is the result',
+                   f'f(E1, <unconvertible>) yields {getattr(out.value, "f", {}).get("label", out.value)!r}')
+        out, calls = run(['raw a', 'raw b'])
+        ok = out.end == 'return' and calls['func'] == [('converted raw a', 'converted raw b')]
+        ctx.expect(ok, w, 'the function is called once with the converted arguments in order',
+                   f'f(a, b) calls the function with {calls["func"]}')
+        ok = out.end == 'return' and ('return annotation', 'result') in calls['validate'] and out.value == 'result'
+        ctx.expect(ok, w, 'the result is converted with the return annotation', f'the result {out.value!r} is not passed through the return annotation')
+        out, calls = run(['raw a'], 'raise')
+        ok = out.end == 'return' and isinstance(out.value, Rec) and out.value.f.get('label') == 'raised by the function'
+        ctx.expect(ok, w, 'an ExcelError raised by the function is returned',
+                   f'an ExcelError raised inside the function ends in {out.end} {out.value!r} instead of becoming the result')
+        # an error argument must be returned even for a parameter whose annotation has no cast
+        out, calls = run([e1])
+        seen_by_validate = any(v is e1 for _, v in calls['validate'])
+        ctx.expect(out.value is e1 and not seen_by_validate, w, 'error argument returned before any conversion',
+                   'an error argument is handed to the conversion step instead of being returned first: for a parameter without a cast '
+                   '(class annotation, no annotation) the error is not propagated')
+    except Unmodelled as exc:
+        raise Unmodelled(f'validate_args wrapper: {exc}')
+    ctx.floor(8, 'wrapper contract obligations')
 
 
 RULES = [
